@@ -288,7 +288,7 @@ Fixpoint join_str (sep : str) (l : list str) : str :=
 (** array.py:77 (auto_escape off); [None] = the default separator " ". *)
 Definition join_f (left : fval) (sep : option fval) : res fval :=
   let xs := sequence_arg left in
-  do sp <- match sep with None => Ok [32%N] | Some v => py_str v end;;
+  do sp <- match sep with None => Ok [32%N] | Some v => to_liquid_string v end;;   (* after the fix: not str() *)
   do ss <- mapM to_liquid_string xs;;
   Ok (FStr (join_str sp ss)).
 
@@ -364,7 +364,8 @@ Definition map_key (left key : fval) : res fval :=
 Definition map_lambda (left : fval) (f : fval -> option fval) : res fval :=
   Ok (FList (map (fun i => match f i with Some v => v | None => FNil end) (sequence_arg left))).
 
-(** * uniq (uniq_filter.py:62) *)
+(** * uniq (uniq_filter.py:62; after the fix "uniq treated true and 1 as duplicates":
+    an earlier element is looked for with Liquid equality [_eq]) *)
 
 (** [[obj for i, obj in enumerate(left) if left.index(obj) == i]]:
     [prev] = the elements before the current one. *)
@@ -389,12 +390,12 @@ Fixpoint uniq_keys {K A} (keqb : K -> K -> bool) (keys : list K) (l : list (K * 
 Definition okey_eqb (a b : option fval) : bool :=
   match a, b with
   | None, None => true
-  | Some x, Some y => py_eq x y
+  | Some x, Some y => liq_eq x y
   | _, _ => false
   end.
 
 Definition uniq_nokey (left : fval) : res fval :=
-  Ok (FList (uniq_by py_eq [] (sequence_arg left))).
+  Ok (FList (uniq_by liq_eq [] (sequence_arg left))).
 
 (** [obj[key]]: KeyError or IndexError -> MISSING (uniq_filter.py:87, after the fix
     "uniq with an index key raised IndexError"), TypeError -> LiquidTypeError. *)
@@ -483,6 +484,11 @@ Definition py_slice {A} (l : list A) (start : Z) (stop : option Z) : list A :=
            end in
   firstn (Z.to_nat (e - s)) (skipn (Z.to_nat s) l).
 
+(** After the fix "slice with a negative start before the beginning": a start
+    below -len is out of range and gives the empty sequence. *)
+Definition slice_seq {A} (l : list A) (st : Z) (stop : option Z) : list A :=
+  if st <? - Z.of_nat (length l) then [] else py_slice l st stop.
+
 (** [length = None] = the default 1. *)
 Definition slice_f (val start : fval) (length : option fval) : res fval :=
   do st <- slice_arg start;;
@@ -490,9 +496,9 @@ Definition slice_f (val start : fval) (length : option fval) : res fval :=
   let e := st + ln in
   let stop := if (st <? 0) && (0 <=? e) then None else Some e in
   match val with
-  | FList l => Ok (FList (py_slice l st stop))
-  | FStr s => Ok (FStr (py_slice s st stop))
-  | _ => do s <- py_str val;; Ok (FStr (py_slice s st stop))
+  | FList l => Ok (FList (slice_seq l st stop))
+  | FStr s => Ok (FStr (slice_seq s st stop))
+  | _ => do s <- py_str val;; Ok (FStr (slice_seq s st stop))
   end.
 
 (** * split (string.py:186) *)
